@@ -1643,6 +1643,8 @@ func getQuotedSymbol(expr *SexpPair) (*SexpSymbol, error) {
 func (gen *Generator) GenerateReturn(xs []Sexp) error {
 	n := len(xs)
 	if n == 0 {
+		// a bare (return) has the value nil
+		gen.AddInstruction(PushInstr{SexpNull})
 		return nil
 	}
 
